@@ -91,8 +91,27 @@ func snapshotEnv(m map[string]any) []any {
 	return out
 }
 
-// shuffled returns an equal map built in a different insertion order.
+// shuffled returns an equal map built in a different insertion order (and rebuilds nested non-string-keyed maps).
 func shuffled(m map[string]any, salt int) map[string]any {
+	m2 := map[string]any{}
+	for k, v := range m {
+		switch t := v.(type) {
+		case map[int]any:
+			c := make(map[int]any, len(t)+salt%7)
+			for kk, vv := range t {
+				c[kk] = vv
+			}
+			v = c
+		case map[any]any:
+			c := make(map[any]any, len(t)+salt%7)
+			for kk, vv := range t {
+				c[kk] = vv
+			}
+			v = c
+		}
+		m2[k] = v
+	}
+	m = m2
 	keys := make([]string, 0, len(m))
 	for k := range m {
 		keys = append(keys, k)
